@@ -61,6 +61,34 @@ def check(res, tier):
             reqs.append(("text-mutant", {"files": {"main.ddp": msrc}, "main": "main.ddp"}))
         # an error in an imported module, reported while compiling the importer
         reqs.append(("error-in-import", {"files": {"lib.ddp": src.replace(" ist ", " ist ist ", 1), "main.ddp": 'Binde "Duden/Ausgabe" ein.\nBinde "lib" ein.\nSchreibe 1.\n'}, "main": "main.ddp"}))
+    # single-cause programs for diagnostics that are delivered late or from unusual places
+    H = 'Binde "Duden/Ausgabe" ein.\n'
+    FWD = 'Die Funktion nachher mit dem Parameter a vom Typ Zahl, gibt eine Zahl zurück,\nwird später definiert\nund kann so benutzt werden:\n\t"nachher <a>"\n\n'
+    GEN = ('Die generische Funktion gen mit dem Parameter a vom Typ T, gibt ein T zurück, macht:\n%s\tGib a zurück.\nUnd kann so benutzt werden:\n\t"gen <a>"\n\n')
+    corpus = [
+        ("forward-declaration-never-defined", {"main.ddp": H + FWD + 'Schreibe "x" auf eine Zeile.\n'}),
+        ("forward-declaration-never-defined-but-called", {"main.ddp": H + FWD + 'Schreibe (nachher 1) auf eine Zeile.\n'}),
+        ("forward-declaration-defined", {"main.ddp": H + FWD + 'Schreibe (nachher 1) auf eine Zeile.\n\nDie Funktion nachher macht:\n\tGib a plus 1 zurück.\n'}),
+        ("forward-declaration-defined-twice", {"main.ddp": H + FWD + 'Die Funktion nachher macht:\n\tGib a plus 1 zurück.\n\nDie Funktion nachher macht:\n\tGib a plus 2 zurück.\n'}),
+        ("definition-without-declaration", {"main.ddp": H + 'Die Funktion nie_deklariert macht:\n\tGib 1 zurück.\n'}),
+        ("forward-declaration-in-import-never-defined", {"lib.ddp": H + FWD.replace("Die Funktion", "Die öffentliche Funktion"), "main.ddp": H + 'Binde "lib" ein.\nSchreibe 1.\n'}),
+        ("warning-in-generic-body", {"main.ddp": H + GEN % "\t...\n" + 'Schreibe "vor" auf eine Zeile.\n'}),
+        ("warning-in-generic-body-instantiated", {"main.ddp": H + GEN % "" + 'Die generische Funktion todo_gen mit dem Parameter a vom Typ T, gibt ein T zurück, macht:\n\t...\nUnd kann so benutzt werden:\n\t"todo_gen <a>"\n\nSchreibe (gen 1) auf eine Zeile.\nWenn falsch, dann:\n\tSchreibe (todo_gen 1) auf eine Zeile.\n'}),
+        ("error-in-generic-body-instantiated", {"main.ddp": H + GEN % "\tDie Zahl kaputt ist \"text\".\n" + 'Schreibe (gen 1) auf eine Zeile.\n'}),
+        ("error-in-generic-body-not-instantiated", {"main.ddp": H + GEN % "\tDie Zahl kaputt ist \"text\".\n" + 'Schreibe 1 auf eine Zeile.\n'}),
+        ("generic-overload-tried-and-discarded-in-import", {
+            "gen.ddp": H + 'Die öffentliche generische Funktion zeig mit dem Parameter a vom Typ T Liste, gibt nichts zurück, macht:\n\tSchreibe (die Länge von a) auf eine Zeile.\nUnd kann so benutzt werden:\n\t"zeig <a>"\n\n'
+                           'Die öffentliche Funktion zeig_zahl mit dem Parameter a vom Typ Zahl, gibt nichts zurück, macht:\n\tSchreibe a auf eine Zeile.\nUnd kann so benutzt werden:\n\t"zeig <a>"\n',
+            "main.ddp": H + 'Binde "gen" ein.\nzeig 5.\nzeig (eine Liste, die aus 1, 2 besteht).\n'}),
+        ("unused-import-of-broken-module", {"kaputt.ddp": "Die Zahl ist ist.\n", "main.ddp": H + 'Binde "kaputt" ein.\nSchreibe 1.\n'}),
+        ("alias-clash", {"main.ddp": H + 'Die Funktion a1 gibt eine Zahl zurück, macht:\n\tGib 1 zurück.\nUnd kann so benutzt werden:\n\t"gleicher alias"\n\nDie Funktion a2 gibt eine Zahl zurück, macht:\n\tGib 2 zurück.\nUnd kann so benutzt werden:\n\t"gleicher alias"\n'}),
+        ("operator-overload-bad-arity", {"main.ddp": H + 'Die Funktion op1 mit dem Parameter a vom Typ Text, gibt einen Text zurück, macht:\n\tGib a zurück.\nUnd überlädt den "plus" Operator.\n'}),
+        ("error-at-last-token", {"main.ddp": H + "Die Zahl z ist"}),
+        ("error-at-first-token", {"main.ddp": ". Die Zahl z ist 1.\n"}),
+        ("error-inside-alias-string", {"main.ddp": H + 'Die Funktion a3 mit dem Parameter p vom Typ Zahl, gibt eine Zahl zurück, macht:\n\tGib p zurück.\nUnd kann so benutzt werden:\n\t"nimm <q> statt p"\n'}),
+    ]
+    for name, files in corpus:
+        reqs.append(("corpus:" + name, {"files": files, "main": "main.ddp"}))
     reqs += [(l, r) for l, r in malformed.requests(rng, ddp, base[:10], quick) if l != "short" or rng.below(4) == 0]
     for _, r in reqs:
         r["render"] = True
@@ -124,8 +152,8 @@ def check(res, tier):
                                "theorem": "Props/C07.lean render_total / DDP.Diag.inText"}, has_input=False)
     # kddp: exit status and artefact
     cfg = pipeline.Config(opt=1)
-    sub = [(l, r) for (l, r), a in zip(reqs, answers) if a["result"] == "ok" and l in ("well-formed", "warning-only", "mutant", "text-mutant", "error-in-import")]
-    sub = sub[:120 if quick else 1200]
+    sub = [(l, r) for (l, r), a in zip(reqs, answers) if a["result"] == "ok" and (l in ("well-formed", "warning-only", "mutant", "text-mutant", "error-in-import") or l.startswith("corpus:"))]
+    sub = [x for x in sub if x[0].startswith("corpus:")] + [x for x in sub if not x[0].startswith("corpus:")][:120 if quick else 1200]
     faulty_of = {id(r): a["faulty"] for (l, r), a in zip(reqs, answers)}
     for label, rq in sub:
         r = pipeline.compile_run(ddp, rq["files"], cfg, compile_only=True)
